@@ -144,6 +144,8 @@ def gen(rng, ctx):
                 op["fanin"] = picks(2)
             if rng.random() < 0.4:
                 op["fanout"] = picks(2)
+            if rng.random() < 0.15:
+                op["rep"] = rng.choice(["tuple", "set", "frozenset", "dictkeys"])
             ops.append(op)
             live.append(n)
             ltype.setdefault(n, t)
@@ -155,8 +157,12 @@ def gen(rng, ctx):
             ops.append({"op": "disconnect", "us": picks(), "vs": picks()})
         elif k == "remove":
             ops.append({"op": "remove", "ns": picks(2)})
+            if rng.random() < 0.2:
+                ops[-1]["rep"] = rng.choice(["tuple", "set", "gen", "dictkeys"])
         elif k == "set_output":
             ops.append({"op": "set_output", "ns": picks(2), "value": rng.random() < 0.7})
+            if rng.random() < 0.2:
+                ops[-1]["rep"] = rng.choice(["tuple", "set", "frozenset", "dictkeys"])
         elif k == "add_blackbox":
             bb = rng.choice(BBDEFS)
             name = rng.choice(["u", "v", "w", "I", "1z", "u", "u.p", "u.v"]) if rng.random() < 0.8 else pick()
@@ -167,6 +173,8 @@ def gen(rng, ctx):
             if rng.random() < 0.1:
                 conns["nopin"] = pick()
             ops.append({"op": "add_blackbox", "bb": bb, "name": name, "connections": conns})
+            if rng.random() < 0.15:
+                ops[-1]["rep"] = rng.choice(["tuple", "set", "frozenset"])
             insts.append(name)
             live += [f"{name}.{p}" for p in bb["inputs"] + bb["outputs"]]
             for p in bb["inputs"]:
@@ -281,10 +289,13 @@ def check(case, ctx):
         b_types, b_edges, b_outs, b_bbs = types, edges, outs, bbs
         if k == "add":
             kw = {}
+            rep = op.get("rep")
             if "fanin" in op:
-                kw["fanin"] = op["fanin"]
+                kw["fanin"] = as_rep(op["fanin"], rep)
             if "fanout" in op:
-                kw["fanout"] = op["fanout"]
+                kw["fanout"] = as_rep(op["fanout"], rep)
+            if rep and ("fanin" in op or "fanout" in op):
+                ctx.count(f"add_rep:{rep}")
             if op["uid"]:
                 kw["uid"] = True
             if op.get("redef"):
@@ -307,21 +318,21 @@ def check(case, ctx):
             label = f"disconnect({op['us']!r},{op['vs']!r})"
             key = k
         elif k == "remove":
-            ok, r = ctx.call(c.remove, op["ns"])
+            ok, r = ctx.call(c.remove, as_rep(op["ns"], op.get("rep")))
             label = f"remove({op['ns']!r})"
             key = k
             if ok:
                 ns = [op["ns"]] if isinstance(op["ns"], str) else list(op["ns"])
                 removed_by_caller |= {n for n in ns if "." in n}
         elif k == "set_output":
-            ok, r = ctx.call(c.set_output, op["ns"], op["value"])
+            ok, r = ctx.call(c.set_output, as_rep(op["ns"], op.get("rep")), op["value"])
             label = f"set_output({op['ns']!r},{op['value']})"
             key = k
         elif k == "add_blackbox":
             b = op["bb"]
             if b["name"] not in bbobjs:
                 bbobjs[b["name"]] = cg.BlackBox(b["name"], list(b["inputs"]), list(b["outputs"]))
-            ok, r = ctx.call(c.add_blackbox, bbobjs[b["name"]], op["name"], dict(op["connections"]))
+            ok, r = ctx.call(c.add_blackbox, bbobjs[b["name"]], op["name"], {k_: as_rep(v_, op.get("rep")) for k_, v_ in op["connections"].items()})
             label = f"add_blackbox({b['name']},{op['name']!r},{op['connections']})"
             key = k
             if ok:
